@@ -395,7 +395,8 @@ def num_truth(ctx, repo, scope=("",), rule="NUM-TRUTH", _self=False):
                             x = x.operand
                         if isinstance(x, ast.Name):
                             truth.append((x.id, n))
-                elif isinstance(n, ast.Assign) and isinstance(n.value, ast.Call) and (call_name(n.value) or "").split(".")[-1] in CONV:
+                elif isinstance(n, ast.Assign) and ((isinstance(n.value, ast.Call) and (call_name(n.value) or "").split(".")[-1] in CONV) or (isinstance(n.value, ast.BinOp) and isinstance(n.value.op, (ast.Sub, ast.Mod, ast.FloorDiv, ast.LShift, ast.RShift, ast.BitAnd)) and not (isinstance(n.value.left, ast.Constant) and isinstance(n.value.left.value, (str, bytes))))):
+                    # a difference, remainder, quotient, shift or mask is a number (0 is a legitimate result)
                     for t in n.targets:
                         if isinstance(t, ast.Name):
                             numeric.add(t.id)
@@ -627,3 +628,88 @@ def xy_twins(ctx, repo, scope=("",), rule="XY-TWIN", _self=False):
 
 _POSITIVE["XY-TWIN"] = "def f(x, y, out):\n    if -255 <= x <= 255:\n        out.append(x)\n    if -255 <= y <= 256:\n        out.append(y)\n"
 GENERIC.append(xy_twins)
+
+
+# ---------------------------------------------------------------------------
+# SIGN-EXT: manual two's-complement sign extension
+# ---------------------------------------------------------------------------
+def sign_extension(ctx, repo, scope=("",), rule="SIGN-EXT", _self=False):
+    from ..consteval import module_env
+
+    ctx.rule(rule, "a manual sign extension `if v >= T: v -= M` subtracts M = 2*T with T a power of two (the first value with the sign bit set); `> T` or another modulus maps exactly one value (or half the range) to the wrong sign", floor=1)
+    if not _self:
+        _selfcheck(ctx, rule, sign_extension)
+    for rel in sorted(repo.rels()):
+        if not rel.startswith(tuple(scope)):
+            continue
+        mod = repo.mod(rel)
+        env = module_env(repo, mod) if getattr(mod, "repo", None) is not None else None
+        for n in ast.walk(mod.tree):
+            if not (isinstance(n, ast.If) and isinstance(n.test, ast.Compare) and len(n.test.ops) == 1 and len(n.body) == 1 and not n.orelse):
+                continue
+            b = n.body[0]
+            sub = None
+            if isinstance(b, ast.AugAssign) and isinstance(b.op, ast.Sub):
+                sub = (norm(b.target), try_fold(b.value, env))
+            elif isinstance(b, ast.Assign) and isinstance(b.value, ast.BinOp) and isinstance(b.value.op, ast.Sub) and norm(b.targets[0]) == norm(b.value.left):
+                sub = (norm(b.targets[0]), try_fold(b.value.right, env))
+            if not sub or not isinstance(sub[1], int) or sub[1] < 256 or sub[1] & (sub[1] - 1) or norm(n.test.left) != sub[0]:
+                continue
+            k = try_fold(n.test.comparators[0], env)
+            op = n.test.ops[0]
+            first = k if isinstance(op, ast.GtE) else k + 1 if isinstance(op, ast.Gt) and isinstance(k, int) else None
+            ok = isinstance(first, int) and 2 * first == sub[1]
+            from .safety import _func_qual_of
+            where = f"{rel}:{_func_qual_of(mod, n)}" if getattr(mod, "repo", None) is not None else f"{rel}:f"
+            ctx.ob(rule, where, f"if {norm(n.test)}: {norm(b)}", ok, "" if ok else f"values from {first} on are mapped down by {sub[1]}: the sign bit of a {sub[1].bit_length() - 1}-bit field is {sub[1] // 2}")
+
+
+_POSITIVE["SIGN-EXT"] = "def f(value):\n    if value > 32768:\n        value -= 65536\n    return value\n"
+GENERIC.append(sign_extension)
+
+
+# ---------------------------------------------------------------------------
+# COMP-VAR: a comprehension over a collection uses its loop variable
+# ---------------------------------------------------------------------------
+def comprehension_var(ctx, repo, scope=("",), rule="COMP-VAR", _self=False):
+    ctx.rule(rule, "a comprehension that walks a collection (not a range) mentions its loop variable in the element or a filter, unless the element is a constant or a fresh object: otherwise every item gets the same outer value (a per-item attribute replaced by an outer one)", floor=1)
+    if not _self:
+        _selfcheck(ctx, rule, comprehension_var)
+    for rel in sorted(repo.rels()):
+        if not rel.startswith(tuple(scope)):
+            continue
+        mod = repo.mod(rel)
+        tot = 0
+        bad = []
+        for c in ast.walk(mod.tree):
+            if not isinstance(c, (ast.ListComp, ast.SetComp, ast.GeneratorExp, ast.DictComp)):
+                continue
+            tv = set()
+            for g in c.generators:
+                tv |= {x.id for x in ast.walk(g.target) if isinstance(x, ast.Name)}
+            tv = {t for t in tv if not t.startswith("_")}
+            if not tv:
+                continue
+            tot += 1
+            elts = [c.key, c.value] if isinstance(c, ast.DictComp) else [c.elt]
+            used = {x.id for e in elts for x in ast.walk(e) if isinstance(x, ast.Name)}
+            for g in c.generators:
+                for i in g.ifs:
+                    used |= {x.id for x in ast.walk(i) if isinstance(x, ast.Name)}
+            for g in c.generators[1:]:
+                used |= {x.id for x in ast.walk(g.iter) if isinstance(x, ast.Name)}
+            if tv & used:
+                continue
+            it = c.generators[0].iter
+            if isinstance(it, ast.Call) and call_name(it) in ("range", "itertools.repeat", "repeat"):
+                continue
+            e = elts[-1]
+            if isinstance(e, ast.Constant) or (isinstance(e, ast.Call) and not e.args and not e.keywords) or isinstance(e, (ast.List, ast.Dict, ast.Tuple, ast.Set)) and not any(isinstance(x, ast.Name) for x in ast.walk(e)):
+                continue
+            bad.append(f"`{norm(c)[:80]}` never uses {sorted(tv)}")
+        if tot:
+            ctx.ob(rule, f"{rel}:<module>", f"{tot} comprehensions use their loop variable (or build constants)", not bad, "; ".join(bad[:2]))
+
+
+_POSITIVE["COMP-VAR"] = "def f(self, lst):\n    return [self.Coverage.glyphs for l in lst]\n"
+GENERIC.append(comprehension_var)
